@@ -363,7 +363,36 @@ def run(ctx: Ctx) -> int:
             if time.time() > t_end:
                 break
             check_shots(ctx, gen_clifford(rng, nq, depth=int(nq * 2.5)), f"clifford-{nq}q", 4 if quick else 8)
-    nm = check_mechanisms(ctx, rng, 4 if quick else 60) if time.time() < t_end + 60 else 0
+    # many deterministic Pauli channels inside multi-output components (dozens of error parameters per component)
+    for task, d, r in ([("surface_code:rotated_memory_z", 3, 2), ("repetition_code:memory", 5, 2)] if quick else
+                       [("surface_code:rotated_memory_z", 3, 3), ("surface_code:rotated_memory_x", 3, 2), ("repetition_code:memory", 7, 3),
+                        ("color_code:memory_xyz", 3, 2), ("surface_code:unrotated_memory_z", 3, 2)]):
+        for rep in range(2 if quick else 4):
+            if time.time() > t_end + 60:
+                break
+            base = stim.Circuit.generated(task, distance=d, rounds=r).flattened()
+            noisy = stim.Circuit()
+            nq = base.num_qubits
+            k = 0
+            for ins in base:
+                noisy.append(ins)
+                if ins.name in ("CX", "H", "R", "TICK", "MR") and rng.random() < 0.6:
+                    for _ in range(int(rng.integers(1, 4))):
+                        noisy.append(["X_ERROR", "Z_ERROR", "Y_ERROR"][int(rng.integers(0, 3))], [int(rng.integers(0, nq))], float(rng.integers(0, 2)))
+                        k += 1
+            check_shots(ctx, str(noisy), "qec-deterministic-noise-" + task.split(":")[0], 4 if quick else 8)
+    for nq in ([8, 12] if quick else [8, 12, 20, 30]):
+        for _ in range(2 if quick else 6):
+            if time.time() > t_end + 90:
+                break
+            lines = gen_clifford(rng, nq, depth=int(nq * 2), with_feedback=False).split("\n")
+            out = []
+            for l in lines:
+                out.append(l)
+                if rng.random() < 0.5:
+                    out.append(f"{['X_ERROR', 'Z_ERROR', 'Y_ERROR'][int(rng.integers(0, 3))]}({int(rng.integers(0, 2))}) {int(rng.integers(0, nq))}")
+            check_shots(ctx, "\n".join(out[:-1] + [out[-1]]) if out[-1].startswith("M ") else "\n".join(out), f"clifford-dense-noise-{nq}q", 4)
+    nm = check_mechanisms(ctx, rng, 4 if quick else 60) if time.time() < t_end + 120 else 0
     ctx.cov["mechanisms_checked"] = nm
     if ctx.broken and not ctx.violations:
         report_broken_without_input(ctx)
